@@ -207,6 +207,25 @@ func (m *Machine) ActSend(t *rapid.T) {
 		maxAmt = bal.Int64()
 	}
 	amt := big.NewInt(rapid.Int64Range(1, maxAmt).Draw(t, "amount"))
+	// amounts of every magnitude a uint256 token amount can have: mostly small, sometimes real-chain scale (1e18 base units),
+	// around the int64 / uint64 / 2^128 limits, the whole balance, or one unit more than the balance (must fail)
+	switch rapid.IntRange(0, 19).Draw(t, "amountKind") {
+	case 0:
+		amt = new(big.Int).Mul(big.NewInt(rapid.Int64Range(1, 50).Draw(t, "amountCoins")), new(big.Int).Exp(big.NewInt(10), big.NewInt(18), nil))
+	case 1:
+		amt = new(big.Int).Add(new(big.Int).Lsh(big.NewInt(1), 63), big.NewInt(rapid.Int64Range(-2, 2).Draw(t, "aroundInt64")))
+	case 2:
+		amt = new(big.Int).Add(new(big.Int).Lsh(big.NewInt(1), 64), big.NewInt(rapid.Int64Range(-2, 2).Draw(t, "aroundUint64")))
+	case 3:
+		amt = new(big.Int).Add(new(big.Int).Lsh(big.NewInt(1), 128), big.NewInt(rapid.Int64Range(-1, 1).Draw(t, "around128")))
+	case 4:
+		if bal.Sign() > 0 {
+			amt = new(big.Int).Add(bal, big.NewInt(rapid.Int64Range(-1, 1).Draw(t, "aroundBalance")))
+			if amt.Sign() <= 0 {
+				amt = big.NewInt(1)
+			}
+		}
+	}
 	fee := big.NewInt(rapid.Int64Range(0, 3).Draw(t, "fee"))
 	call := rapid.SampledFrom(m.CallKinds).Draw(t, "call")
 	recv := strings.ToLower(w.Users[rapid.IntRange(0, 1).Draw(t, "receiver")].Addr.String())
